@@ -88,8 +88,9 @@ def _repeat_depth(node: ast.AST, binding: ast.AST, par) -> int:
     return depth
 
 
-def reuse_sites(fn_node: ast.AST) -> List[Tuple[ast.AST, str, str, ast.AST]]:
-    """[(read node, name, kind of single-use value, binding node)] for every offending read in the function"""
+def reuse_sites(fn_node: ast.AST, iterable_params: bool = False) -> List[Tuple[ast.AST, str, str, ast.AST]]:
+    """[(read node, name, kind of single-use value, binding node)] for every offending read in the function.
+    iterable_params: a parameter annotated Iterable[...] is treated as possibly single-use too (the signature admits an iterator)."""
     par = _parents(fn_node)
     out = []
     bindings = []
@@ -98,7 +99,7 @@ def reuse_sites(fn_node: ast.AST) -> List[Tuple[ast.AST, str, str, ast.AST]]:
             ann = ast.unparse(a.annotation) if a.annotation is not None else ""
             head = a.annotation.value if isinstance(a.annotation, ast.Subscript) else a.annotation
             head_name = head.id if isinstance(head, ast.Name) else head.attr if isinstance(head, ast.Attribute) else None
-            if head_name in ("Iterator", "Generator"):
+            if head_name in ("Iterator", "Generator") or (iterable_params and head_name == "Iterable"):
                 bindings.append((a, a.arg, f"parameter annotated {ann}"))
     for n in ast.walk(fn_node):
         if isinstance(n, ast.Assign) and len(n.targets) == 1 and isinstance(n.targets[0], ast.Name):
@@ -127,6 +128,10 @@ def reuse_sites(fn_node: ast.AST) -> List[Tuple[ast.AST, str, str, ast.AST]]:
                 continue
             if isinstance(pr, ast.Call) and isinstance(pr.func, ast.Name) and pr.func.id == "next" and pr.args and pr.args[0] is r:
                 continue             # explicit cursor idiom: it = iter(xs); next(it) ... next(it)
+            if iterable_params and isinstance(b, ast.arg) and (
+                    (isinstance(pr, (ast.If, ast.While, ast.IfExp)) and pr.test is r) or isinstance(pr, ast.BoolOp) or
+                    (isinstance(pr, ast.UnaryOp) and isinstance(pr.op, ast.Not))):
+                continue             # a truth test of the argument looks at the object, not at its elements
             consuming.append(r)
         repeated = [r for r in consuming if _repeat_depth(r, b, par) > 0]
         if repeated:
@@ -156,7 +161,7 @@ def reuse_sites(fn_node: ast.AST) -> List[Tuple[ast.AST, str, str, ast.AST]]:
     return uniq
 
 
-def run_iterator_rule(ck, rule: str, functions=None, construct_prefix: str = ""):
+def run_iterator_rule(ck, rule: str, functions=None, construct_prefix: str = "", iterable_params: bool = False):
     """apply the rule to the given functions (default: every non-test function of the repository)"""
     from .common import where, short
     p = ck.ctx.p
@@ -166,7 +171,7 @@ def run_iterator_rule(ck, rule: str, functions=None, construct_prefix: str = "")
         for n in ast.walk(fn.node):
             if isinstance(n, ast.Assign) and len(n.targets) == 1 and isinstance(n.targets[0], ast.Name) and is_single_use(n.value):
                 n_bind += 1
-        sites = reuse_sites(fn.node)
+        sites = reuse_sites(fn.node, iterable_params)
         for r, name, kind, b in sites:
             ck.violation(rule, f"{construct_prefix}{short(fn)}:{name}:reused", where(fn, r),
                          f"`{name}` is a single-use iterator ({kind}) that is read again here: an earlier reader has already "
